@@ -1,19 +1,51 @@
 """Spinlock section of the extraction: memory orders of lock()/unlock() in core/Spinlock.h."""
 import re
 
-from extract import read, strip_cpp_comments, func_body, order_of, MO
+from extract import read, strip_cpp_comments, func_body, body_after, order_of, MO
 
 IMPORTS = ["QuillModel.Spin.Model"]
 
 
-def extract(repo, failures):
+def flag_member(src, failures, what):
+    """name of the single std::atomic<…> data member of `class Spinlock`, read off its declaration (the extraction must not
+    depend on what the member is called)"""
+    m = re.search(r"class\s+Spinlock\b[^{;]*\{", src)
+    try:
+        cls = body_after(src, m.end() - 1) if m else None
+    except ValueError:
+        cls = None
+    if cls is None:
+        failures.append(what + ": class Spinlock not found")
+        return "_flag"
+    names = re.findall(r"\bstd\s*::\s*atomic\s*<[^;{}()]*>\s*(\w+)\s*(?:\{[^;]*\}|=[^;]*|\([^;]*\))?\s*;", cls)
+    if len(names) != 1:
+        failures.append(what + ": expected exactly one std::atomic data member in class Spinlock, found %d" % len(names))
+        return names[0] if names else "_flag"
+    return names[0]
+
+
+def lock_orders(repo, failures, what):
+    """memory orders of the lock's exchange / unlock store, whatever the flag member is called"""
     src = strip_cpp_comments(read(repo, "include/quill/core/Spinlock.h"))
+    flag = flag_member(src, failures, what)
     lk = func_body(src, r"void\s+lock\s*\(\s*\)\s*(?:noexcept)?\s*\{")
     ul = func_body(src, r"void\s+unlock\s*\(\s*\)\s*(?:noexcept)?\s*\{")
     d = {}
-    d["xchg"] = order_of(lk, "_flag", "exchange", failures, "spinlock.lock")
-    d["unl"] = order_of(ul, "_flag", "store", failures, "spinlock.unlock")
-    d["lockIsExchangeLoop"] = bool(lk and re.search(r"while\s*\(\s*_flag\s*\.\s*exchange\s*\(", lk))
+    d["xchg"] = order_of(lk, flag, "exchange", failures, what + ".lock")
+    d["unl"] = order_of(ul, flag, "store", failures, what + ".unlock")
+    d["lockIsExchangeLoop"] = bool(lk and re.search(r"while\s*\(\s*" + re.escape(flag) + r"\s*\.\s*exchange\s*\(", lk))
+    d["flag"] = flag   # handed to the harness builds as -DH_SPIN_FLAG=<name> (see spin_flag_define)
+    return d, src, flag
+
+
+def spin_flag_define(ex):
+    """compiler flag telling the atomic-shim harnesses what the lock's flag member is called in the current tree"""
+    name = (ex or {}).get("spin", {}).get("flag") or "_flag"
+    return "-DH_SPIN_FLAG=" + (name if re.fullmatch(r"\w+", name) else "_flag")
+
+
+def extract(repo, failures):
+    d, src, _ = lock_orders(repo, failures, "spinlock")
     d["guardUnlocksInDtor"] = bool(re.search(r"~LockGuard\s*\(\s*\)\s*\{\s*_spinlock\s*\.\s*unlock\s*\(\s*\)", src))
     L = ["def spinOrders : Spin.Orders := { xchg := %s, unl := %s }" % (MO[d["xchg"]], MO[d["unl"]]),
          "def lockIsExchangeLoop : Bool := %s" % ("true" if d["lockIsExchangeLoop"] else "false"),
@@ -21,4 +53,4 @@ def extract(repo, failures):
     return d, "\n".join(L)
 
 
-FALLBACK = ({"xchg": "seq_cst", "unl": "seq_cst"}, "def spinOrders : Spin.Orders := { xchg := .seqcst, unl := .seqcst }\ndef lockIsExchangeLoop : Bool := false\ndef guardUnlocksInDtor : Bool := false")
+FALLBACK = ({"xchg": "seq_cst", "unl": "seq_cst", "flag": "_flag"}, "def spinOrders : Spin.Orders := { xchg := .seqcst, unl := .seqcst }\ndef lockIsExchangeLoop : Bool := false\ndef guardUnlocksInDtor : Bool := false")
